@@ -10,7 +10,9 @@ class Substitution:
     fancy bit of swapping around, making the code and filename appear to be
     different.
     """
-    def __init__(self, code: str, filename: str):
+    def __init__(self, code: str, filename: str, line_offsets: dict = None):
         self.code = code
         self.filename = filename
         self.lines = code.split("\n")
+        #: The line offsets that applied to this code (e.g., because it was a section)
+        self.line_offsets = line_offsets
